@@ -237,7 +237,10 @@ func runReal(sc Scenario) RunResult {
 	src := auditevent.NewAuditEvent(common.ActionLoginIdentifier,
 		auditevent.EventSource{Type: sc.Ident.SrcType, Value: sc.Ident.SrcValue, Extra: toAny(sc.Ident.SrcExtra)},
 		auditevent.OutcomeSucceeded, cloneMap(sc.Ident.Subjects), "sshd").WithTarget(cloneMap(sc.Ident.Target))
-	src.LoggedAt = time.Unix(1600000000, 0).UTC()
+	if sc.LoginSec == 0 {
+		sc.LoginSec = 1600000000
+	}
+	src.LoggedAt = time.Unix(sc.LoginSec, 0).UTC()
 	src.Metadata.AuditID = "login-" + sc.Cred
 	rul := common.RemoteUserLogin{Source: src, PID: sc.PID, CredUserID: sc.Cred}
 	before := snapshot(src) // deep copy of what is delivered
